@@ -29,7 +29,11 @@ OpSet == {[op |-> "upd", p |-> 1, v |-> 2], [op |-> "upd", p |-> 2, v |-> 3], [o
           [op |-> "get", p |-> 1, v |-> 0], [op |-> "art", p |-> 1, v |-> 0], [op |-> "art", p |-> 2, v |-> 0],
           \* parameter 3 is slice valued (v = tag*10 + length); producer 3 hands out an artifact that is
           \* serialised AFTER Artifact() returned, i.e. outside the lock ("post" step below)
-          [op |-> "upd", p |-> 3, v |-> 24], [op |-> "upd", p |-> 3, v |-> 33], [op |-> "art", p |-> 3, v |-> 0]}
+          [op |-> "upd", p |-> 3, v |-> 24], [op |-> "upd", p |-> 3, v |-> 33], [op |-> "art", p |-> 3, v |-> 0],
+          \* 13 makes the processors that read p1 fail; 1 is p2's DEFAULT (p2 starts at its flag value 7);
+          \* updbad is a rejected update (no effect on the model state)
+          [op |-> "upd", p |-> 1, v |-> 13], [op |-> "upd", p |-> 2, v |-> 1],
+          [op |-> "updbad", p |-> 3, v |-> 0], [op |-> "updbad", p |-> 1, v |-> 0]}
 
 Ops == IF OpFilter = "vec" THEN {o \in OpSet : o.p = 3} ELSE OpSet
 
@@ -71,7 +75,7 @@ StepIn(c) ==
     /\ LET o == cur[c] IN
        \/ /\ o.op = "upd" /\ pval' = [pval EXCEPT ![o.p] = o.v] /\ Finish(c)
           /\ UNCHANGED <<k, acc, torn>>
-       \/ /\ o.op = "get" /\ Finish(c) /\ UNCHANGED <<pval, k, acc, torn>>
+       \/ /\ o.op \in {"get", "updbad"} /\ Finish(c) /\ UNCHANGED <<pval, k, acc, torn>>
        \/ /\ o.op = "art" /\ k[c] < Len(LeafOrder(o))
           /\ LET rd == Append(acc[c], pval[LeafOrder(o)[k[c] + 1]]) IN
              /\ acc' = [acc EXCEPT ![c] = rd] /\ k' = [k EXCEPT ![c] = @ + 1]
